@@ -5,7 +5,8 @@
     read and written somewhere in it.
     [fee_table_lock_ordered]: the lock order certificate: a receiver's mutex is only acquired with
     nothing held, an element's mutex only with at most the receiver's held, and nothing is acquired
-    while an element's mutex is held (container before element, never the other way round). *)
+    while an element's mutex is held (container before element, never the other way round).
+    That [well_locked] + [lock_ordered] exclude deadlock is proved in proofs/LocksDeadlock.v. *)
 From Coq Require Import List String Bool Arith PeanoNat.
 From GoBT Require Import model.Locks spec.RaceSpec proofs.LocksProofs.
 From GoBT Require gen.Locks.
